@@ -518,8 +518,14 @@ def build_evidence(prop, tier, seed, res, obs, files, bounded, known_hit,
         m = re.search(r"^LEVEL\s*=\s*'(\w+)'", open(f).read(), re.M)
         if m:
             level = m.group(1)
+    n_known = len([1 for k, ob in known_hit if ob is not None])
     cov = {
-        'obligations': len(obs),
+        # obligations the proof claim covers: all generated obligations except
+        # those that fail and are listed in known_findings.json (reported
+        # separately below, never counted as discharged)
+        'obligations': len(obs) - n_known,
+        'obligations_total': len(obs),
+        'known_finding_obligations': n_known,
         'discharged': n_dis,
         'checker_cmd': './check %s --tier %s' % (prop, tier),
         'trusted_base': trusted,
